@@ -593,6 +593,7 @@ def decide_L(prop, tier, seed, t0, replay):
         "samples": an["samples"][:2],
         "traces_validated_against_impl": an["histories"], "lines_compared": an["lines"],
         "disagreements": an.get("n_disagree", 0), "oracle_hits": len(oracle),
+        "generated_modules_equal_only_up_to_renaming_of_local_bindings": an.get("alpha_equal", 0),
         "input_distribution": an["stats"], "channel_cached": info.get("cached", False), "channel_computed_at": info.get("computed_at"),
         "exhaustive": False, "exhaustive_subspace": info.get("exhaustive_mode"),
     }
